@@ -76,7 +76,8 @@ def message_stanza(r, kind):
         m.protocol_message.key.remote_jid = gen.jid(r)
         m.protocol_message.key.from_me = True
         m.protocol_message.key.id = gen.msgid(r)
-        m.protocol_message.type = 0
+        if r.random() < 0.5:
+            m.protocol_message.type = 0        # (REVOKE is the default of this optional field: a sender may leave it off the wire)
     elif kind == "empty-payload":
         pass
     elif kind == "unknown-mediatype":
